@@ -362,7 +362,8 @@ def r4_stamping(R, sh: SolverShape) -> None:
     # zeroing before the loop
     zeros = [s for s in sh.stores if s.series == 'iterations' and s.owner != 'self' and not sh.in_loop(s.node) and s.node.id in sh.dom[sh.loop.id] or
              (s.series == 'iterations' and s.owner != 'self' and not sh.in_loop(s.node) and sh.loop.id not in sh.dom[s.node.id])]
-    if R.require(sh.q, len(zeros), 'submodel.iterations[t] = 0 before the loop', fi=sh.fi, pred=pred_series_store('iterations', aug=False)):
+    if R.require(sh.q, len(zeros), 'submodel.iterations[t] = 0 before the loop', fi=sh.fi,
+                 pred=lambda x: isinstance(x, ast.Assign) and is_const(x.value, 0) and isinstance(x.targets[0], ast.Subscript) and 'iterations' in text(x.targets[0].value)):
         z = zeros[0]
         zl = [sh.cfg.nodes[i] for i in z.node.loops]
         R.check(text(z.index) == 't' and is_const(z.value, 0) and not z.aug, sh.q, 'zero-value:' + stmt_key(z.node.ast),
